@@ -216,6 +216,9 @@ func (v *Voucher) VerifyDeviceCertChain(roots *x509.CertPool) error {
 	}
 	chain := make([]*x509.Certificate, len(*v.CertChain))
 	for i, cert := range *v.CertChain {
+		if cert == nil {
+			return errors.New("cert chain contains a null certificate")
+		}
 		chain[i] = (*x509.Certificate)(cert)
 	}
 	return verifyCertChain(chain, roots)
@@ -238,6 +241,9 @@ func (v *Voucher) VerifyCertChainHash() error {
 		return err
 	}
 	for _, cert := range *v.CertChain {
+		if cert == nil {
+			return errors.New("cert chain contains a null certificate")
+		}
 		if _, err := digest.Write(cert.Raw); err != nil {
 			return fmt.Errorf("error computing hash: %w", err)
 		}
